@@ -85,7 +85,7 @@ func (c12) Budget(tier string) runner.Budget {
 
 func (c12) Describe() runner.Description {
 	return runner.Description{
-		Rule:        "call-tree plans (85%): a seeded tree of 2..14 frames (depth <=5), each a deployed contract with effects (SSTORE of a per-frame slot, SSTORE / clearing of a slot shared by the storage context and committed non-empty beforehand, LOG1, 1-wei transfer to a sink, transfer of the whole balance to the sink (balance exactly 0), 1-wei payment to the root contract, CREATE of a 1-byte contract), children called by CALL / CALLCODE / DELEGATECALL / STATICCALL with full or limited gas, and an ending (RETURN, REVERT, INVALID, infinite loop, stack fault); the root gas limit is ample or starved at a seeded point. Every successful frame returns the bitmap of frames of its subtree whose effects must persist; the transaction runs through the real block executor. Oracle: final storage of every frame slot, the ordered receipt logs, sink and contract balances, contract nonces and the set of created accounts equal exactly the effects of the frames in the returned bitmap (failed frames and their subtrees contribute nothing); no frame inside a STATICCALL subtree that has effects may report success and nothing from such a subtree may persist; a failed root leaves the whole state as before except fee/nonce of the sender. Failed-creation plans (8%): a contract runs an inner CREATE (40%: CREATE2) whose init code stores, logs and optionally pays out of its endowment and then ends by returning 1 byte / 200000 bytes (code deposit unpayable at the lower gas limits) / 250000 bytes (over the size limit) / REVERT / INVALID; the creator records what CREATE pushed; if it reported failure no account, storage, balance or log of the creation frame may remain and the endowment is back with the creator; in 30% of them the same init code is a contract-creation TRANSACTION: a failed one leaves no account and its receipt carries no log, a successful one has all effects. Stake-opcode plans (5%): a contract that is the account of a registered miner executes the node's STAKE / UNSTAKE / UNSTAKEALL opcode inside a STATICCALL (25%: plain CALL as control); its balance and the miner record must be unchanged afterwards; or a contract AUTHs itself with an externally owned account's signature and AUTHCALLs a sink with value inside a STATICCALL: the account's nonce and the sink's balance must be unchanged. Cross-transaction plans (15%): 2-4 identical-shaped transactions in one block, each TLOADs a slot, records it, TSTOREs, touches storage and logs: every transaction must read transient storage empty, pay the same gas (no warm access list inherited), and its receipt must carry exactly its own log; in half of them the transactions only warm ADDRESSES (account-access opcodes, an inner CREATE, a deployment transaction) and every probe transaction not first in the block must use exactly the gas it uses alone in a block on the same parent state. distinct_nontrivial = distinct tree shapes (kinds, endings, effects, gas shares) with at least one failing inner frame.",
+		Rule:        "call-tree plans (85%): a seeded tree of 2..14 frames (depth <=5), each a deployed contract with effects (SSTORE of a per-frame slot, SSTORE / clearing of a slot shared by the storage context and committed non-empty beforehand, LOG1, 1-wei transfer to a sink, transfer of the whole balance to the sink (balance exactly 0), 1-wei payment to the root contract, CREATE of a 1-byte contract), children called by CALL / CALLCODE / DELEGATECALL / STATICCALL with full or limited gas, and an ending (RETURN, REVERT, INVALID, infinite loop, stack fault); the root gas limit is ample or starved at a seeded point. Every successful frame returns the bitmap of frames of its subtree whose effects must persist; the transaction runs through the real block executor. Oracle: final storage of every frame slot, the ordered receipt logs, sink and contract balances, contract nonces and the set of created accounts equal exactly the effects of the frames in the returned bitmap (failed frames and their subtrees contribute nothing); no frame inside a STATICCALL subtree that has effects may report success and nothing from such a subtree may persist; a failed root leaves the whole state as before except fee/nonce of the sender. Failed-creation plans (8%): a contract runs an inner CREATE (40%: CREATE2) whose init code stores, logs and optionally pays out of its endowment and then ends by returning 1 byte / 32 recognisable bytes from a frame that grew its memory beyond 4 KiB, followed by another memory-hungry frame (the deployed code must be exactly those bytes) / 200000 bytes (code deposit unpayable at the lower gas limits) / 250000 bytes (over the size limit) / REVERT / INVALID; the creator records what CREATE pushed; if it reported failure no account, storage, balance or log of the creation frame may remain and the endowment is back with the creator; in 30% of them the same init code is a contract-creation TRANSACTION: a failed one leaves no account and its receipt carries no log, a successful one has all effects. Stake-opcode plans (5%): a contract that is the account of a registered miner executes the node's STAKE / UNSTAKE / UNSTAKEALL opcode inside a STATICCALL (25%: plain CALL as control); its balance and the miner record must be unchanged afterwards; or a contract AUTHs itself with an externally owned account's signature and AUTHCALLs a sink with value inside a STATICCALL: the account's nonce and the sink's balance must be unchanged. Cross-transaction plans (15%): 2-4 identical-shaped transactions in one block, each TLOADs a slot, records it, TSTOREs, touches storage and logs: every transaction must read transient storage empty, pay the same gas (no warm access list inherited), and its receipt must carry exactly its own log; in half of them the transactions only warm ADDRESSES (account-access opcodes, an inner CREATE, a deployment transaction) and every probe transaction not first in the block must use exactly the gas it uses alone in a block on the same parent state. distinct_nontrivial = distinct tree shapes (kinds, endings, effects, gas shares) with at least one failing inner frame.",
 		Assumptions: []string{"frame effects use per-frame slots/topics so that every observed value is attributable to one frame", "SELFDESTRUCT only as the ending of a CALL-kind frame (its own contract), beneficiary a sink account"},
 		Real:        []string{"vm (EVM call/create/static handling, interpreter, gas)", "executor contract executor", "core/vmexecutor (Prepare, snapshot/revert, receipts)", "storage/account (journal, access list, transient storage, logs)"},
 		Stub:        []string{"ConsensusHelper", "network"},
@@ -103,7 +103,7 @@ func (c12) Gen(seed uint64, tier string) json.RawMessage {
 		return b
 	}
 	if r.Chance(0.08) {
-		p.FC = []string{"small", "big", "big", "toolarge", "revert", "invalid"}[r.Intn(6)]
+		p.FC = []string{"small", "big", "big", "toolarge", "revert", "invalid", "pattern", "pattern"}[r.Intn(8)]
 		p.FCValue = uint64(r.Intn(3))
 		p.FCPay = p.FCValue > 0 && r.Chance(0.5)
 		p.FCGas = []uint64{60000000, 60000000, 30000000, 12000000}[r.Intn(4)]
@@ -872,6 +872,8 @@ func (c12) Shrink(raw json.RawMessage) []json.RawMessage {
 
 // ---- failed contract creation ----
 
+var c12CodePattern = []byte{0x60, 0x01, 0x60, 0x02, 0x01, 0x50, 0x00, 0xC0, 0xDE, 0x0B, 0x0D, 0x1E, 0x5A, 0xFE, 0x11, 0x22, 0x33, 0x44, 0x55, 0x66, 0x77, 0x88, 0x99, 0xAA, 0xBB, 0xCC, 0xDD, 0x01, 0x02, 0x03, 0x04, 0x05}
+
 // c12FailedCreate: a contract F runs an inner CREATE whose init code has effects (SSTORE, LOG1, optionally a
 // payment out of its endowment) and then ends in a seeded way; F records what CREATE pushed. If CREATE
 // reported failure (0), nothing of the creation frame may remain: no account at the would-be address
@@ -885,10 +887,13 @@ func c12FailedCreate(p *c12Plan, ec *execChain, st *simrt.Stats, log *simrt.Log)
 	if p.FCPay {
 		init.Push(0).Push(0).Push(0).Push(0).Push(1).PushBytes(c12Sink.Bytes()).Op(evmasm.GAS, evmasm.CALL, evmasm.POP)
 	}
-	where := map[string]string{"small": "successful-creation", "big": "code-store-out-of-gas", "toolarge": "code-too-large", "revert": "init-reverted", "invalid": "init-invalid-opcode"}[p.FC]
+	where := map[string]string{"small": "successful-creation", "pattern": "successful-creation-large-memory", "big": "code-store-out-of-gas", "toolarge": "code-too-large", "revert": "init-reverted", "invalid": "init-invalid-opcode"}[p.FC]
 	switch p.FC {
 	case "small":
 		init.Push(1).Push(0).Op(evmasm.RETURN)
+	case "pattern":
+		// 32 bytes of recognisable code returned from a frame whose memory grew beyond 4 KiB
+		init.PushBytes(c12CodePattern).Push(0).Op(evmasm.MSTORE).Push(0xAA).Push(0x1400).Op(0x53).Push(32).Push(0).Op(evmasm.RETURN)
 	case "big": // 200000 bytes of runtime code (below the size limit): the deposit costs 40M gas or more
 		init.Push(200000).Push(0).Op(evmasm.RETURN)
 	case "toolarge":
@@ -913,6 +918,11 @@ func c12FailedCreate(p *c12Plan, ec *execChain, st *simrt.Stats, log *simrt.Log)
 		f.Push(uint64(len(init))).Push(0x80).Push(p.FCValue).Op(evmasm.CREATE)
 	}
 	f.Push(1).Op(evmasm.SSTORE)
+	haddr := c12Addr(601)
+	if p.FC == "pattern" {
+		// a later frame of the same transaction that uses as much memory (it ends normally or reverts)
+		f.Push(0).Push(0).Push(0).Push(0).Push(0).PushBytes(haddr.Bytes()).Op(evmasm.GAS, evmasm.CALL, evmasm.POP)
+	}
 	f.Log1(0xF00D, 1).Op(evmasm.STOP)
 	faddr := c12Addr(600)
 	common.SetBlockHeight(ec.height)
@@ -920,6 +930,17 @@ func c12FailedCreate(p *c12Plan, ec *execChain, st *simrt.Stats, log *simrt.Log)
 	s0.SetCode(faddr, f)
 	s0.SetNonce(faddr, 1)
 	s0.AddBalance(faddr, big.NewInt(1000))
+	if p.FC == "pattern" {
+		var hc evmasm.Code
+		hc.PushBytes(bytes.Repeat([]byte{0xEE}, 32)).Push(0).Op(evmasm.MSTORE).Push(0xEE).Push(0x1400).Op(0x53)
+		if p.FCPay || p.FCValue == 1 {
+			hc.Push(0).Push(0).Op(evmasm.REVERT)
+		} else {
+			hc.Op(evmasm.STOP)
+		}
+		s0.SetCode(haddr, hc)
+		s0.SetNonce(haddr, 1)
+	}
 	root, err := s0.Commit(true)
 	if err == nil {
 		err = middleware.AccountDBManagerInstance.GetTrieDB().Commit(root, false)
@@ -988,10 +1009,13 @@ func c12FailedCreate(p *c12Plan, ec *execChain, st *simrt.Stats, log *simrt.Log)
 		if post.GetNonce(created) != 1 || !initLog || post.GetState(created, common.BigToHash(big.NewInt(1))) != common.BigToHash(big.NewInt(0x55)) {
 			return viol(0, "successful-creation-incomplete", where, "CREATE reported success but the created account lacks the init code's effects: %s", trace())
 		}
-		if p.FC != "small" && p.FC != "big" {
+		if p.FC != "small" && p.FC != "big" && p.FC != "pattern" {
 			return viol(0, "creation-succeeded-unexpectedly", where, "CREATE reported success although the init code ended with %s", p.FC)
 		}
-		if want := map[string]int{"small": 1, "big": 200000}[p.FC]; len(post.GetCode(created)) != want {
+		if p.FC == "pattern" && !bytes.Equal(post.GetCode(created), c12CodePattern) {
+			return viol(0, "successful-creation-incomplete", where, "CREATE reported success but the account's code is %x, the init code returned %x", post.GetCode(created), c12CodePattern)
+		}
+		if want := map[string]int{"small": 1, "big": 200000, "pattern": 32}[p.FC]; len(post.GetCode(created)) != want {
 			return viol(0, "successful-creation-incomplete", where, "CREATE reported success but the account holds %d bytes of code, the init code returned %d", len(post.GetCode(created)), want)
 		}
 	default:
@@ -1042,7 +1066,7 @@ func c12FailedCreateTx(p *c12Plan, init evmasm.Code, where string, ec *execChain
 		return nil
 	}
 	st.Probe("creation_tx_succeeded")
-	if p.FC != "small" && p.FC != "big" {
+	if p.FC != "small" && p.FC != "big" && p.FC != "pattern" {
 		return viol(0, "creation-succeeded-unexpectedly", "creation-tx/"+where, "the creation transaction succeeded although the init code ended with %s", p.FC)
 	}
 	created := rc.ContractAddress
@@ -1052,7 +1076,7 @@ func c12FailedCreateTx(p *c12Plan, init evmasm.Code, where string, ec *execChain
 			initLog = true
 		}
 	}
-	want := map[string]int{"small": 1, "big": 200000}[p.FC]
+	want := map[string]int{"small": 1, "big": 200000, "pattern": 32}[p.FC]
 	if !initLog || len(rc.Logs) != 1 || post.GetState(created, slot1) != common.BigToHash(big.NewInt(0x55)) || len(post.GetCode(created)) != want {
 		return viol(0, "successful-creation-incomplete", "creation-tx/"+where, "the creation transaction succeeded but account %s has %d bytes of code (returned %d), slot 1 = %x, %d logs in the receipt (init-code log: %v)",
 			created.GetHexString(), len(post.GetCode(created)), want, post.GetState(created, slot1).Bytes()[31:], len(rc.Logs), initLog)
